@@ -178,7 +178,7 @@ theorem move_out_spec {s s' : St} {uids : List Nat} {dst : String} {r : CopyRes}
     ((∀ su du, r ≠ .ok su du) → recMsgs s' = recMsgs s) ∧
     ∀ su du, r = .ok su du →
       (∃ b', getBox s'.db dst = some b' ∧ ∀ u ∈ du, ∃ id, (u, id) ∈ b'.msgs) ∧
-      ∃ bs, getBox s.db recName = some bs ∧ su = (selectUids bs uids).map (·.1) ∧
+      ∃ bs, getBox s.db recName = some bs ∧ (su = (selectUids bs uids).map (·.1) ∨ (su = [] ∧ du.length ≠ (selectUids bs uids).length)) ∧
         recMsgs s' = (recMsgs s).filter (fun p => !((selectUids bs uids).map (·.2)).contains p.2) := by
   unfold move at h
   split at h
@@ -202,6 +202,132 @@ theorem move_out_spec {s s' : St} {uids : List Nat} {dst : String} {r : CopyRes}
           obtain ⟨e1, e2⟩ := e
           subst e1 e2
           obtain ⟨ha, hb⟩ := moveOut_ok hd (withTx_ok he)
-          exact ⟨ha, bs, hbs, rfl, hb⟩
+          refine ⟨ha, bs, hbs, ?_, hb⟩
+          unfold moveSrcUids
+          split
+          · next hc => simp at hc; exact Or.inr ⟨rfl, hc⟩
+          · exact Or.inl rfl
+
+/-! ### "answered OK" means "is in the destination", de-duplicated or not -/
+
+theorem importAll_length {mark : Bool} : ∀ (ids : List Nat) (s s' : St) (nids : List Nat),
+    importAll s ids mark = (.ok nids, s') → nids.length = ids.length := by
+  intro ids
+  induction ids with
+  | nil => intro s s' nids h; simp [importAll] at h; simp [h.1]
+  | cons id r ih =>
+    intro s s' nids h
+    unfold importAll at h
+    split at h
+    · simp at h
+    · next nid dd s1 _ =>
+      simp only at h
+      split at h
+      · simp at h
+      · next n2 s2 h2 =>
+        simp at h
+        rw [← h.1]
+        simp [ih _ _ _ h2]
+
+/-- whatever `actionAddRecoveredMessagesToMailbox` is handed is in the mailbox afterwards: the
+    messages that were already there (the only ones it does not label) and the ones it adds -/
+theorem addRecovered_arrives {s s' : St} {n : String} {ids uids : List Nat} (h : addRecovered s n ids = (.ok uids, s')) :
+    ∃ b', getBox s'.db n = some b' ∧ ∀ i ∈ ids, boxHas b' i = true := by
+  unfold addRecovered at h
+  split at h
+  · simp at h
+  · next b hb =>
+    simp only at h
+    split at h
+    · simp at h
+    · next s1 h1 =>
+      have hdb : s1.db = s.db := by unfold remoteAdd at h1; simp at h1; rw [← h1.2]
+      obtain ⟨b0, b', h3, h4, h5, h6, _⟩ := dbAddMessages_ok h
+      rw [hdb, hb] at h3
+      cases h3
+      refine ⟨b', h4, fun i hi => ?_⟩
+      by_cases hin : boxHas b i = true
+      · unfold boxHas at hin ⊢
+        rw [h6, List.any_append, hin]; rfl
+      · have hmem : i ∈ ids.filter (fun i => !boxHas b i) := by
+          rw [List.mem_filter]; exact ⟨hi, by simpa using hin⟩
+        obtain ⟨j, hj, hji⟩ := List.getElem_of_mem hmem
+        have hj' : j < uids.length := by rw [h5]; exact hj
+        have hz : (uids.zip (ids.filter (fun i => !boxHas b i))).any (fun p => p.2 == i) = true := by
+          rw [List.any_eq_true]
+          refine ⟨(uids[j], i), ?_, by simp⟩
+          rw [List.mem_iff_getElem]
+          exact ⟨j, by rw [List.length_zip]; omega, by simp [hji]⟩
+        unfold boxHas
+        rw [h6, List.any_append, hz]; simp
+
+theorem copyOut_arrives {s s' : St} {ids : List Nat} {dst : String} {uids : List Nat}
+    (h : copyOutOfRecovery s ids dst = (.ok uids, s')) :
+    ∃ nids s1, importAll s ids false = (.ok nids, s1) ∧ nids.length = ids.length ∧
+      ∃ b', getBox s'.db dst = some b' ∧ ∀ i ∈ nids, boxHas b' i = true := by
+  unfold copyOutOfRecovery at h
+  split at h
+  · simp at h
+  · next nids s1 he => exact ⟨nids, s1, he, importAll_length _ _ _ _ he, addRecovered_arrives h⟩
+
+theorem moveOut_arrives {s s' : St} {ids : List Nat} {dst : String} {uids : List Nat}
+    (h : moveOutOfRecovery s ids dst = (.ok uids, s')) :
+    ∃ nids s1, importAll s ids true = (.ok nids, s1) ∧ nids.length = ids.length ∧
+      ∃ b', getBox s'.db dst = some b' ∧ ∀ i ∈ nids, boxHas b' i = true := by
+  unfold moveOutOfRecovery at h
+  split at h
+  · simp at h
+  · next nids s1 he => exact ⟨nids, s1, he, importAll_length _ _ _ _ he, addRecovered_arrives h⟩
+
+/-- COPY out of the recovery mailbox answered OK: every selected message was imported and the
+    message it was imported as — new, or the one the remote recognised — is in the destination -/
+theorem copy_out_arrives {s s' : St} {uids : List Nat} {dst : String} {su du : List Nat}
+    (h : copy s recName uids dst = (.ok su du, s')) :
+    ∃ bs nids s1, getBox s.db recName = some bs ∧
+      importAll { s with txIns := false, txErase := false } ((selectUids bs uids).map (·.2)) false = (.ok nids, s1) ∧
+      nids.length = (selectUids bs uids).length ∧
+      ∃ b', getBox s'.db dst = some b' ∧ ∀ i ∈ nids, boxHas b' i = true := by
+  unfold copy at h
+  split at h
+  · simp at h
+  · next bs hbs =>
+    split at h
+    · simp at h
+    · split at h
+      · simp at h
+      · simp only [beq_self_eq_true, ↓reduceIte] at h
+        split at h
+        · simp at h
+        · next d s1 he =>
+          simp at h
+          obtain ⟨_, h2⟩ := h
+          subst h2
+          obtain ⟨nids, s2, h3, h4, h5⟩ := copyOut_arrives (withTx_ok he)
+          exact ⟨bs, nids, s2, hbs, h3, by simpa using h4, h5⟩
+
+/-- MOVE likewise -/
+theorem move_out_arrives {s s' : St} {uids : List Nat} {dst : String} {su du : List Nat}
+    (h : move s recName uids dst = (.ok su du, s')) :
+    ∃ bs nids s1, getBox s.db recName = some bs ∧
+      importAll { s with txIns := false, txErase := false } ((selectUids bs uids).map (·.2)) true = (.ok nids, s1) ∧
+      nids.length = (selectUids bs uids).length ∧
+      ∃ b', getBox s'.db dst = some b' ∧ ∀ i ∈ nids, boxHas b' i = true := by
+  unfold move at h
+  split at h
+  · simp at h
+  · next bs hbs =>
+    split at h
+    · simp at h
+    · split at h
+      · simp at h
+      · simp only [beq_self_eq_true, ↓reduceIte] at h
+        split at h
+        · simp at h
+        · next d s1 he =>
+          simp at h
+          obtain ⟨_, h2⟩ := h
+          subst h2
+          obtain ⟨nids, s2, h3, h4, h5⟩ := moveOut_arrives (withTx_ok he)
+          exact ⟨bs, nids, s2, hbs, h3, by simpa using h4, h5⟩
 
 end Gluon.Append
